@@ -523,6 +523,8 @@ def ops_argshare(rng):
 
 def ops_shared(rng):
     d, really = shared_trees(rng)
+    if d["k"] in ("Label", "UntypedLabel", "Index", "Branch") and rng.random() < 0.25:
+        d = dict(d, ed=rng.choice([Q(2), Q(1), Q(F(1, 2))]))      # assembled with .ed(entries > 0, ...)
     al = DR.Alphabet(d, DR.CATS_NP)
     ops = [{"op": "NewShared", "s": 1, "d": d}]
     for _ in range(rng.randint(1, 4)):
